@@ -358,7 +358,8 @@ func newCacheSeqSpec(name string, cfg CacheCfg, defAtStart time.Duration, cbAtSt
 	}
 	return &SeqSpec{Name: name, Events: names, MaxDepth: maxDepth, New: func() SeqInst {
 		vtime.VEnable(epochNs)
-		installCacheLayout(nil)
+		vtime.VCaptureTickers(true) // a janitor started by the constructor variant under test never fires here
+		installDetHash(11)
 		l := &ledger{}
 		c2 := cfg
 		if cbAtStart {
